@@ -173,6 +173,22 @@ class Executor:
     if name in m.imports:
       imp = m.imports[name]
       if imp[0] == 'ext':
+        # what the name is ACTUALLY bound to in the imported working-tree module decides (try/except ImportError
+        # variants of the same import); the static import text is the fallback
+        try:
+          mod = S.import_repo_module(module, self.prog.repo)
+          if hasattr(mod, name):
+            obj = getattr(mod, name)
+            if callable(obj) or isinstance(obj, type(ast)):
+              dotted = imp[1]
+              try:
+                if S.resolve_external(imp[1]) is not obj:
+                  dotted = '%s.%s' % (getattr(obj, '__module__', '?'), getattr(obj, '__qualname__', name))
+              except Exception:
+                dotted = '%s.%s' % (getattr(obj, '__module__', '?'), getattr(obj, '__qualname__', name))
+              return VExt(obj, dotted)
+        except Exception:
+          pass
         try:
           return VExt(S.resolve_external(imp[1]), imp[1])
         except Exception:
@@ -990,6 +1006,25 @@ class Executor:
       p.env[target.id] = v
       return [p]
     if isinstance(target, (ast.Tuple, ast.List)):
+      stars = [i for i, t in enumerate(target.elts) if isinstance(t, ast.Starred)]
+      if stars:
+        if len(stars) > 1 or not isinstance(v, (VTuple, VList)):
+          raise Unsupported('starred assignment from %r' % (v,))
+        k = stars[0]
+        n_after = len(target.elts) - k - 1
+        if len(v.items) < len(target.elts) - 1:
+          self.raise_(p, 'ValueError', 'not enough values to unpack (line %s)' % getattr(target, 'lineno', '?'))
+          return []
+        mid = VList(v.items[k:len(v.items) - n_after])
+        items = v.items[:k] + [mid] + (v.items[len(v.items) - n_after:] if n_after else [])
+        paths = [p]
+        for t, x in zip(target.elts, items):
+          tt = t.value if isinstance(t, ast.Starred) else t
+          nxt = []
+          for q in paths:
+            nxt += self.assign_to(tt, x, q, module)
+          paths = nxt
+        return paths
       items = self.unpack(v, len(target.elts), p, target)
       if items is None:
         return []
